@@ -1,4 +1,5 @@
 #![allow(dead_code)]
+mod c09;
 mod checks;
 mod engine;
 mod gen;
@@ -9,5 +10,5 @@ mod refcodec;
 mod vgen;
 
 fn main() {
-    vcommon::main(&[&checks::C02, &checks::C03, &checks::C04, &checks::C05, &checks::C10])
+    vcommon::main(&[&checks::C02, &checks::C03, &checks::C04, &checks::C05, &checks::C10, &c09::DEF])
 }
